@@ -121,4 +121,63 @@ theorem runFollow_consumed_le (O : Oracles) (qy : Query) (sa : Option Nat) (line
       | panic s => simp
       | oracleMissing s => simp
 
+/-! ### unfolding lemmas for the executed follow loop (for bridging lemmas of other properties: C06, C07, C11) -/
+
+theorem runFollowAll_eq (O : Oracles) (qy : Query) (stopAt : Option Nat) (lines : List Line) :
+    runFollowAll O qy stopAt lines = if reachedLimit qy {} then {} else (runFollow O qy stopAt lines {}).out := rfl
+
+theorem runFollowAll_of_not_limit (O : Oracles) (qy : Query) (stopAt : Option Nat) (lines : List Line)
+    (h : reachedLimit qy {} = false) : runFollowAll O qy stopAt lines = (runFollow O qy stopAt lines {}).out := by
+  simp [runFollowAll, h]
+
+theorem runFollow_nil (O : Oracles) (qy : Query) (stopAt : Option Nat) (ls : LoopState) :
+    runFollow O qy stopAt [] ls = ls := rfl
+
+/-- the state in which a delivered line is executed: it has been counted -/
+def followCounted (ls : LoopState) : LoopState :=
+  { ls with consumed := ls.consumed + 1, out := { ls.out with totalLines := ls.out.totalLines + 1 } }
+
+/-- `single_result` of the follow printer: `output.updated`, i.e. aggregate statement -/
+def followSingle (qy : Query) : Bool :=
+  match qy.stmt with
+  | .aggregate _ => true
+  | _ => false
+
+/-- the state after a delivered line whose result table `r` was printed -/
+def followResult (qy : Query) (ls : LoopState) (es : EngineState) (r : RowOut) : LoopState :=
+  { es := es, consumed := ls.consumed + 1, stop := ls.stop,
+    out := { ls.out with totalLines := ls.out.totalLines + 1, printed := ls.out.printed ++ printResult r (followSingle qy) } }
+
+/-- one uninterrupted step, the engine answered without a result table: the loop goes on (the limit flag is not
+looked at) -/
+theorem runFollow_cons_noresult (O : Oracles) (qy : Query) (l : Line) (rest : List Line) (ls : LoopState)
+    (es : EngineState) (lo : LineOut) (hx : executeLine O qy [] true ls.es l = .ok (es, lo)) (hr : lo.result = none) :
+    runFollow O qy none (l :: rest) ls = runFollow O qy none rest { (followCounted ls) with es := es } := by
+  have h2 : ((none : Option Nat) == some ls.consumed) = false := by simp
+  simp only [runFollow, h2, Bool.false_eq_true, if_false, hx, hr, followCounted]
+
+/-- one uninterrupted step with a result table: it is printed; the loop ends there iff the limit flag is set -/
+theorem runFollow_cons_result (O : Oracles) (qy : Query) (l : Line) (rest : List Line) (ls : LoopState)
+    (es : EngineState) (lo : LineOut) (r : RowOut) (hx : executeLine O qy [] true ls.es l = .ok (es, lo))
+    (hr : lo.result = some r) :
+    runFollow O qy none (l :: rest) ls =
+      (if lo.reachedLimit then { followResult qy ls es r with stop := true }
+       else runFollow O qy none rest (followResult qy ls es r)) := by
+  have h2 : ((none : Option Nat) == some ls.consumed) = false := by simp
+  simp only [runFollow, h2, Bool.false_eq_true, if_false, hx, hr, followResult, followSingle]
+  split <;> rfl
+
+/-- one uninterrupted step on which the engine fails: the failure is recorded and the loop ends -/
+theorem runFollow_cons_fail (O : Oracles) (qy : Query) (l : Line) (rest : List Line) (ls : LoopState)
+    (h : ∀ p, executeLine O qy [] true ls.es l ≠ .ok p) :
+    runFollow O qy none (l :: rest) ls =
+      { (followCounted ls) with out := failWith (followCounted ls).out (executeLine O qy [] true ls.es l), stop := true } := by
+  have h2 : ((none : Option Nat) == some ls.consumed) = false := by simp
+  simp only [runFollow, h2, Bool.false_eq_true, if_false, followCounted]
+  cases hx : executeLine O qy [] true ls.es l with
+  | ok p => exact absurd hx (h p)
+  | error e => rfl
+  | panic s => rfl
+  | oracleMissing s => rfl
+
 end Sqlgrep
